@@ -10,8 +10,10 @@ import (
 	"hash/adler32"
 	"math/rand"
 	"os"
+	"runtime"
 	"strconv"
 	"strings"
+	"time"
 )
 
 // Seed returns the PRNG seed from VERIF_SEED (default 1).
@@ -121,4 +123,16 @@ func Digest(b []byte) string {
 		t = t[len(t)-16:]
 	}
 	return fmt.Sprintf("(%d, %d, %s, %s)", len(b), adler32.Checksum(b), Hex(h), Hex(t))
+}
+
+// Watchdog ends the process with exit status 3 and a dump of all goroutine stacks when the harness has not
+// finished after d: a call into the library that never returns must end as a report, not as a hung check.
+func Watchdog(d time.Duration) {
+	go func() {
+		time.Sleep(d)
+		buf := make([]byte, 1<<20)
+		n := runtime.Stack(buf, true)
+		fmt.Fprintf(os.Stderr, "WATCHDOG: harness still running after %v; a library call did not return. goroutines:\n%s\n", d, buf[:n])
+		os.Exit(3)
+	}()
 }
